@@ -2,8 +2,8 @@
 
 CHECKS = {
     # property -> (engine, profile, {tier: (runs, wall budget seconds)})
-    "C09": ("xform-sim", "C09", {"quick": (3200, 200), "thorough": (60000, 1800)}),
-    "C07": ("xform-sim", "C07", {"quick": (3200, 200), "thorough": (60000, 1800)}),
+    "C09": ("xform-sim", "C09", {"quick": (6400, 240), "thorough": (60000, 1800)}),
+    "C07": ("xform-sim", "C07", {"quick": (6400, 240), "thorough": (60000, 1800)}),
     "C15": ("frame-sim", "C15", {"quick": (3200, 200), "thorough": (60000, 1800)}),
     "C18": ("io-sim", "C18", {"quick": (2400, 200), "thorough": (40000, 1800)}),
 }
